@@ -3,9 +3,18 @@ segment classes (built by segtree.Builder), for C01 (reads) and C07 (writes).
 
 Every stored leaf array is filled with `leaf_id * 10**6 + flat raw offset`, so the value of a formatted pixel *is*
 its provenance; the model prints the same provenance (`<leaf id>:<flat raw offset>`, `F` for the fill value,
-`C(<re>,<im>)` for a complex pair).  Modelled: array / memmap / file-read leaves, reverse + transpose, ReorientationSegment,
-subsets (squeeze or not), band and block aggregates (holes), ComplexFormatFunction IQ/QI with collapsed band axis (reads);
-everything else raises `Unsupported` in `encode` and is counted in `stats['unsupported']`.
+`C(<re>,<im>)` for a complex pair, `P(<mag>,<phase>)` for a magnitude / phase pair, `T<c>(<x>)` for a table look-up).
+Modelled: array / memmap / file-read leaves, reverse + transpose, ReorientationSegment, subsets (squeeze or not, formatted
+basis; raw basis over a parent with the identity format function), band and block aggregates (holes, block definitions with
+step -1), ComplexFormatFunction IQ / QI / MP / PM with the band axis collapsed or kept (reads and writes),
+SingleLUTFormatFunction with a 1-d or 2-d table; everything else raises `Unsupported` in `encode` and is counted in
+`stats['unsupported']` (raw-basis subsets over subsets / complex / LUT parents: numpy oracle only).  Block definitions with
+step -1 and 2-d tables are modelled as the REPAIRED code behaves (notes/NOTES_SEGFIX.md, patches F1 and F5).
+
+Trees with a magnitude / phase or LUT format are compared by VALUE: the model's provenance expression is evaluated on the
+harness's own copy of the leaf arrays (magnitude * exp(i * 2 pi phase / 2^bits), table[x]) and compared with what sarpy
+returns (tolerance 1e-5 relative, far below the distance between distinct samples); all other trees are compared
+exactly, provenance string against provenance string.
 
 Two-phase API, so that the caller can share one `Driver` run:
 
@@ -35,6 +44,10 @@ REQUIRED_SEG = [
     'read_refines', 'read_eq_select', 'read_shape', 'full_shape', 'full_local', 'full_read', 'full_in_store', 'read_in_store',
     'orient_refines', 'subset_refines', 'fleaf_refines', 'cplx_refines', 'block_some', 'block_none', 'block_axes',
     'mirror_point', 'overlap_point', 'normalSub_iff', 'selIdx_inR',
+    # SEG2: raw-basis subsets, reversed block definitions, kept band dimension, MP / PM, lookup tables, the supported set
+    'read_refines_total', 'accepts_of_total', 'subsetR_full_raw', 'fmtSub_orient', 'fmtSub_normal', 'squeeze_congr',
+    'flipSlice_spec', 'overlapsR_spec', 'block_axesR', 'block_someR', 'block_noneR', 'kept_refines', 'rawSubK_eq', 'rawSubK_reversed_not_normal', 'dblAt_normal',
+    'lutMap_refines', 'lutCols_refines',
 ]
 SEG_MODULE = 'SarpyModel.Props.C01Seg'
 SEG_NS = 'Sarpy.Props.C01Seg'
@@ -42,8 +55,13 @@ REQUIRED_WSEG = [
     'write_routes', 'write_then_full', 'write_then_full_selected', 'write_then_full_other', 'injective_of_distinct',
     'writes_disjoint', 'chunks_commute', 'chunks_commute_scatter', 'full_eval', 'overlapsW_eq', 'data_entry',
     'leaf_routes', 'orient_routes', 'subset_routes', 'bands_routes', 'block_routes', 'fullOnto_char', 'tiled_plain',
+    # SEG2: routing of every part of a written pixel, complex format functions included (Props/C07SegG.lean)
+    'write_routesG', 'routesG_plain', 'stores_comb', 'stores_leaf', 'routes_transfer', 'leaf_routesG', 'orient_routesG',
+    'subset_routesG', 'cplx_routesG', 'kept_routesG', 'bands_routesG', 'block_routesG', 'fullOnto_charP', 'orient_inj', 'subset_inj',
+    # SEGFIX: block definitions with step -1 are served (repair F1): routing through the mirrored block-relative slice
+    'block_routesRQ', 'overlapsWR_eq', 'block_axes_stepR', 'block_dataR',
 ]
-WSEG_MODULE = 'SarpyModel.Props.C07Seg'
+WSEG_MODULE = 'SarpyModel.Props.C07SegG'
 WSEG_NS = 'Sarpy.Props.C07Seg'
 
 
@@ -74,63 +92,192 @@ def encode(spec):
     cover (complex / LUT format functions, raw-basis subsets, block arrangements with step -1)."""
     spec = copy.deepcopy(spec)
     counter = [0]
+    _required_dtype(spec)
     toks = _enc(spec, counter)
     return toks, spec, counter[0]
 
 
 def _orient_tokens(spec, ndim):
+    """prefix for the node's own reverse / transpose / format function"""
     rev = spec.get('rev') or []
     trans = spec.get('trans')
     perm = list(trans) if trans is not None else list(range(ndim))
-    return ['O', _nats(sorted(set(rev))), _nats(perm)]
-
-
-def _enc(spec, counter):
-    k = spec['kind']
     f = spec.get('fmt')
-    if f and not (k in ('array', 'memmap', 'fileread') and f['kind'] == 'complex' and f['collapsed'] and f['order'] in ('IQ', 'QI')):
-        raise Unsupported('format function ' + f['kind'] + ('' if f['kind'] != 'complex' else ' (band dimension kept)'))
+    if f is None:
+        return ['O', _nats(sorted(set(rev))), _nats(perm)]
+    if f['kind'] == 'complex':
+        return ['C' if f['collapsed'] else 'CK', f['order'], _nats(sorted(set(rev))), _nats(perm), str(f['band_dim'])]
+    if f['kind'] == 'lut':
+        if isinstance(f['table'][0], list):
+            # tied since the repair F5_lut_2d_raw_subscript (DataSegment.read hands the formatted column slice on)
+            return ['U2', str(len(f['table'][0])), _nats(sorted(set(rev))), _nats(perm)]
+        return ['U1', _nats(sorted(set(rev))), _nats(perm)]
+    raise Unsupported('format function ' + f['kind'])
+
+
+def _required_dtype(spec, want='int32'):
+    """stored dtype of every leaf below: uint16 under a magnitude / phase format, uint8 under a table, else int32"""
+    f = spec.get('fmt')
+    if f is not None:
+        if want != 'int32':
+            raise Unsupported('format function below a format function')
+        if f['kind'] == 'complex' and f['order'] in ('MP', 'PM'):
+            want = 'uint16'
+        elif f['kind'] == 'lut':
+            want = 'uint8'
+        elif f['kind'] == 'complex':
+            want = 'cint32'      # int32 storage read as complex pairs (float32 carries < 2^24 exactly)
+    if spec['kind'] in ('array', 'memmap', 'fileread'):
+        spec['_want'] = want
+    if 'parent' in spec:
+        _required_dtype(spec['parent'], want)
+    for c in spec.get('children', []):
+        _required_dtype(c, want)
+
+
+def _enc_raw(spec, counter):
+    """tokens of what lies below the node's own orientation (its raw data)"""
+    k = spec['kind']
     if k in ('array', 'memmap', 'fileread'):
         lid = counter[0]
         counter[0] += 1
-        spec['base'] = lid * BASE
-        spec['dtype'] = 'int32'
-        spec['_id'] = lid
-        shape = list(spec['shape'])
-        leaf = ['R' if k == 'fileread' else 'L', str(lid), _nats(shape)]
-        if f:
-            if lid > 15:
+        want = spec.get('_want', 'int32')
+        n = int(numpy.prod(spec['shape'])) if spec['shape'] else 1
+        if want == 'uint16':
+            if lid > 15 or n > 3000:
+                raise Unsupported('uint16 provenance range')
+            spec['base'], spec['dtype'] = lid * 4000 + 1, 'uint16'
+        elif want == 'uint8':
+            if n > 250:
+                raise Unsupported('uint8 provenance range')
+            spec['base'], spec['dtype'] = lid * 53, 'uint8'
+        else:
+            if want == 'cint32' and lid > 15:
                 raise Unsupported('complex64 cannot carry the provenance of more than 16 leaves exactly')
-            o = _orient_tokens(spec, len(shape))
-            return ['C', '1' if f['order'] == 'IQ' else '0', o[1], o[2], str(f['band_dim'])] + leaf
-        return _orient_tokens(spec, len(shape)) + leaf
+            spec['base'], spec['dtype'] = lid * BASE, 'int32'
+        spec['_id'] = lid
+        return ['R' if k == 'fileread' else 'L', str(lid), _nats(list(spec['shape']))], len(spec['shape'])
     if k == 'reorient':
-        inner = _enc(spec['parent'], counter)
-        nd = len(segtree.full_shape_of(spec['parent']))
-        return _orient_tokens(spec, nd) + inner
-    if k == 'subset':
-        if spec.get('basis', 'formatted') != 'formatted':
-            raise Unsupported('raw-basis subset')
-        inner = _enc(spec['parent'], counter)
-        return ['S', '1' if spec.get('squeeze', True) else '0', sub_token(spec['def'])] + inner
+        return _enc(spec['parent'], counter), len(segtree.full_shape_of(spec['parent']))
     if k == 'bands':
         ch = [_enc(c, counter) for c in spec['children']]
         nd = len(segtree.full_shape_of(spec['children'][0])) + 1
-        out = _orient_tokens(spec, nd) + ['B', str(spec['band_dim']), str(len(ch))]
+        out = ['B', str(spec['band_dim']), str(len(ch))]
         for c in ch:
             out += c
-        return out
+        return out, nd
     if k == 'blocks':
         ch = [_enc(c, counter) for c in spec['children']]
         shape = list(spec['shape'])
         spec['fill'] = FILL
-        out = _orient_tokens(spec, len(shape)) + ['K', _nats(shape), str(len(ch))]
+        out = ['K', _nats(shape), str(len(ch))]
         for a, c in zip(spec['arrangement'], ch):
-            if any(x[2] != 1 for x in a):
-                raise Unsupported('block arrangement with step != 1')
-            out += [','.join(f'{x[0]}:{x[1]}' for x in a)] + c
-        return out
+            ent = []
+            for x in a:
+                if x[2] == 1:
+                    ent.append(f'{x[0]}:{x[1]}')
+                elif x[2] == -1:
+                    ent.append(f'{0 if x[1] is None else x[1] + 1}:{x[0] + 1}r')
+                else:
+                    raise Unsupported('block arrangement with |step| != 1')
+            out += [','.join(ent)] + c
+        return out, len(shape)
     raise Unsupported(k)
+
+
+def _enc(spec, counter):
+    k = spec['kind']
+    if k == 'subset':
+        if spec.get('fmt'):
+            raise Unsupported('format function on a subset')
+        if spec.get('basis', 'formatted') == 'formatted':
+            inner = _enc(spec['parent'], counter)
+            return ['S', '1' if spec.get('squeeze', True) else '0', sub_token(spec['def'])] + inner
+        ps = spec['parent']
+        if ps['kind'] == 'subset' or ps.get('fmt'):
+            raise Unsupported('raw-basis subset over a subset or over a complex / LUT format function (outside the model)')
+        raw, nd = _enc_raw(ps, counter)
+        o = _orient_tokens(ps, nd)
+        return ['SR', '1' if spec.get('squeeze', True) else '0', sub_token(spec['def']), o[1], o[2]] + raw
+    raw, nd = _enc_raw(spec, counter)
+    return _orient_tokens(spec, nd) + raw
+
+
+def needs_values(spec):
+    """compare by value (magnitude / phase arithmetic, table look-up) instead of by provenance string"""
+    f = spec.get('fmt')
+    if f and (f['kind'] == 'lut' or (f['kind'] == 'complex' and f['order'] in ('MP', 'PM'))):
+        return True
+    if 'parent' in spec and needs_values(spec['parent']):
+        return True
+    return any(needs_values(c) for c in spec.get('children', []))
+
+
+def leaf_specs(spec):
+    if spec['kind'] in ('array', 'memmap', 'fileread'):
+        return [spec]
+    out = []
+    if 'parent' in spec:
+        out += leaf_specs(spec['parent'])
+    for c in spec.get('children', []):
+        out += leaf_specs(c)
+    return out
+
+
+def _parse_elem(tok, pos=0):
+    """provenance expression -> nested tuple; returns (expr, next position)"""
+    c = tok[pos]
+    if c == 'F':
+        return ('F',), pos + 1
+    if c in 'CP':
+        a, p = _parse_elem(tok, pos + 2)
+        b, p = _parse_elem(tok, p + 1)
+        return (c, a, b), p + 1
+    if c == 'T':
+        j = tok.index('(', pos)
+        a, p = _parse_elem(tok, j + 1)
+        return ('T', int(tok[pos + 1:j]), a), p + 1
+    j = pos
+    while j < len(tok) and (tok[j].isdigit() or tok[j] == ':'):
+        j += 1
+    lid, _, off = tok[pos:j].partition(':')
+    return ('L', int(lid), int(off)), j
+
+
+def evaluate(answer, leaves, table, phase_scale):
+    """model answer `shape | elements` -> numpy array of the values those provenance expressions denote"""
+    shape, _, body = answer.partition(' |')
+    shape = tuple(int(x) for x in shape.strip().split(',')) if shape.strip() != '-' else ()
+
+    def ev(e):
+        if e[0] == 'F':
+            return FILL
+        if e[0] == 'L':
+            return leaves[e[1]].reshape(-1)[e[2]]
+        if e[0] == 'C':
+            return complex(float(ev(e[1])), float(ev(e[2])))
+        if e[0] == 'P':
+            return float(ev(e[1])) * numpy.exp(1j * float(ev(e[2])) * phase_scale)
+        if e[0] == 'T':
+            row = table[int(ev(e[2]))]
+            return row[e[1]] if isinstance(row, list) else row
+        raise ValueError(e)
+    vals = [ev(_parse_elem(t)[0]) for t in body.split()]
+    return numpy.array(vals).reshape(shape)
+
+
+def _fmt_params(spec):
+    """(table, phase scale) of the format function in the tree (at most one kind per tree, see _required_dtype)"""
+    f = spec.get('fmt')
+    if f and f['kind'] == 'lut':
+        return f['table'], 0.0
+    if f and f['kind'] == 'complex' and f['order'] in ('MP', 'PM'):
+        return None, 2.0 * numpy.pi / 65536.0
+    for c in ([spec['parent']] if 'parent' in spec else []) + list(spec.get('children', [])):
+        t, s_ = _fmt_params(c)
+        if t is not None or s_:
+            return t, s_
+    return None, 0.0
 
 
 def show(arr):
@@ -175,7 +322,7 @@ def plan_reads(drv, rng, tier, trees=None):
         stats['trees'] += 1
         tline = ' '.join(toks)
         job = {'tree': spec2, 'tokens': tline, 'shape_q': drv.ask('seg shape ' + tline), 'full_q': drv.ask('seg full ' + tline),
-               'subs': []}
+               'fullread_q': drv.ask('seg read ' + tline + ' ' + sub_token([[0, n, 1] for n in shape])), 'subs': []}
         for _ in range(per):
             sub = rand_sub(rng, shape)
             job['subs'].append((sub, drv.ask('seg read ' + tline + ' ' + sub_token(sub))))
@@ -196,12 +343,39 @@ def _with_tmp(fn):
     return wrapped
 
 
+REFUSALS = (ValueError, KeyError)
+
+
+def _read_agrees(seg, sub, model, valctx):
+    """-> (agree, implementation text).  A refusal (ValueError / KeyError, what sarpy raises for a subscript it does not
+    serve) agrees with the model answer `refused` and with nothing else."""
+    try:
+        got = seg.read(None if sub is None else py_sub(sub), squeeze=False)
+    except REFUSALS as e:
+        return model == 'refused', f'raised {type(e).__name__}: {e}'
+    except Exception as e:
+        return False, f'raised {type(e).__name__}: {e}'
+    if model == 'refused':
+        return False, show_any(got)
+    if valctx is None:
+        text = show(got)
+        return text == model, text
+    leaves, table, scale, approx = valctx
+    want = evaluate(model, leaves, table, scale)
+    ok = segtree.arrays_equal(numpy.asarray(got), want.astype(got.dtype) if not approx else want, approx)
+    return ok, show_any(got)
+
+
+def show_any(arr):
+    return _nats(arr.shape) + ' | ' + ' '.join(str(v) for v in arr.reshape(-1)[:40])
+
+
 @_with_tmp
 def check_reads(plan, ans, tmpdir):
     """-> (disagreements, stats): the model's provenance against the real segment's values"""
     dis = []
     stats = dict(plan['stats'])
-    stats.update({'reads': 0, 'full_reads': 0, 'classes': set()})
+    stats.update({'reads': 0, 'full_reads': 0, 'refused_both': 0, 'by_value': 0, 'classes': set()})
     for job in plan['jobs']:
         spec = job['tree']
         b = segtree.Builder('r', tmpdir)
@@ -218,21 +392,25 @@ def check_reads(plan, ans, tmpdir):
             if m_shape != _nats(seg.formatted_shape):
                 dis.append({'tree': spec, 'sub': None, 'model': m_shape, 'impl': _nats(seg.formatted_shape), 'tie': 'segment model (formatted_shape)'})
                 continue
-            try:
-                got = show(seg.read(None, squeeze=False))
-            except Exception as e:
-                got = f'raised {type(e).__name__}: {e}'
+            valctx = None
+            if needs_values(spec):
+                table, scale = _fmt_params(spec)
+                valctx = ([segtree.Builder('r').leaf_array(l) for l in leaf_specs(spec)], table, scale, segtree.has_polar(spec))
+                stats['by_value'] += 1
+            # the full image: the denotation `Seg.full` (always defined) against read(None) when the code serves it
             stats['full_reads'] += 1
-            if got != ans[job['full_q']]:
-                dis.append({'tree': spec, 'sub': None, 'model': ans[job['full_q']][:300], 'impl': got[:300], 'tie': 'segment model (full image)'})
+            m_read_full = ans[job['fullread_q']]
+            ok, got = _read_agrees(seg, None, ans[job['full_q']] if m_read_full != 'refused' else 'refused', valctx)
+            stats['refused_both'] += m_read_full == 'refused' and ok
+            if not ok:
+                dis.append({'tree': spec, 'sub': None, 'model': (m_read_full if m_read_full == 'refused' else ans[job['full_q']])[:300],
+                            'impl': got[:300], 'tie': 'segment model (full image)'})
                 continue
             for sub, q in job['subs']:
                 stats['reads'] += 1
-                try:
-                    got = show(seg.read(py_sub(sub), squeeze=False))
-                except Exception as e:
-                    got = f'raised {type(e).__name__}: {e}'
-                if got != ans[q]:
+                ok, got = _read_agrees(seg, sub, ans[q], valctx)
+                stats['refused_both'] += ans[q] == 'refused' and ok
+                if not ok:
                     dis.append({'tree': spec, 'sub': sub, 'model': ans[q][:300], 'impl': got[:300], 'tie': 'segment model (read)'})
                     break
             try:
@@ -246,6 +424,26 @@ def check_reads(plan, ans, tmpdir):
 
 
 # ------------------------------------------------------------------ writes (C07)
+
+def _fmts(spec):
+    out = [spec['fmt']] if spec.get('fmt') else []
+    if 'parent' in spec:
+        out += _fmts(spec['parent'])
+    for c in spec.get('children', []):
+        out += _fmts(c)
+    return out
+
+
+def write_kind(spec):
+    """'plain' | 'pair' (IQ / QI) | 'polar' (MP / PM) | None (not writable through the model: LUT, mixed formats)"""
+    fs = _fmts(spec)
+    if not fs:
+        return 'plain'
+    if any(f['kind'] != 'complex' for f in fs):
+        return None
+    kinds = {'polar' if f['order'] in ('MP', 'PM') else 'pair' for f in fs}
+    return kinds.pop() if len(kinds) == 1 else None
+
 
 def plan_writes(drv, rng, tier, rand_wtree, trees=None):
     """ask the model where every element of `per` random (normalised, possibly strided / reversed) chunks is stored"""
@@ -261,11 +459,12 @@ def plan_writes(drv, rng, tier, rand_wtree, trees=None):
         except Unsupported:
             stats['unsupported'] += 1
             continue
-        if not shape or any(n == 0 for n in shape) or ' C ' in ' ' + ' '.join(toks):
-            continue        # complex formats are modelled for reads only
+        kind = write_kind(spec2)
+        if not shape or any(n == 0 for n in shape) or kind is None:
+            continue
         stats['trees'] += 1
         tline = ' '.join(toks)
-        job = {'tree': spec2, 'tokens': tline, 'nleaves': nleaves, 'subs': []}
+        job = {'tree': spec2, 'tokens': tline, 'nleaves': nleaves, 'kind': kind, 'subs': []}
         for j in range(per):
             sub = [[0, n, 1] for n in shape] if j == 0 else rand_sub(rng, shape)
             job['subs'].append((sub, drv.ask('seg write ' + tline + ' ' + sub_token(sub))))
@@ -284,19 +483,43 @@ def _model_assignments(answer):
         lid, _, off = key.partition(':')
         k = (int(lid), int(off))
         dup += k in out
-        out[k] = int(pos)
+        out[k] = pos
     return out, shape.strip(), dup
+
+
+def chunk_data(kind, counts):
+    """the chunk whose element at flat position p tells p (and, for complex formats, which part of it a stored sample is):
+    plain p;  pair 2p + i (2p + 1);  polar magnitude 2p + 1, phase (2p + 2) / 65536 of a turn"""
+    n = int(numpy.prod(counts)) if len(counts) else 1
+    p = numpy.arange(n, dtype='float64')
+    if kind == 'plain':
+        return numpy.arange(n, dtype='int32').reshape(counts)
+    if kind == 'pair':
+        return (2 * p + 1j * (2 * p + 1)).astype('complex64').reshape(counts)
+    return ((2 * p + 1) * numpy.exp(2j * numpy.pi * (2 * p + 2) / 65536.0)).astype('complex64').reshape(counts)
+
+
+def decode_sample(kind, v):
+    """stored raw sample -> the model's text for it (`p` or `p.<part>`)"""
+    v = int(v)
+    if kind == 'plain':
+        return str(v)
+    if kind == 'pair':
+        return f'{v // 2}.{v % 2}'
+    return f'{(v - 1) // 2}.2' if v % 2 else f'{(v - 2) // 2}.3'
 
 
 @_with_tmp
 def check_writes(plan, ans, tmpdir):
-    """-> (disagreements, stats): every chunk is written into a fresh real segment tree (stores pre-set to -1) with the
-    chunk element at flat position p carrying the value p; the changed raw samples are compared with the model's assignments"""
+    """-> (disagreements, stats): every chunk is written into a fresh real segment tree (stores pre-set to a sentinel) with
+    `chunk_data`; the changed raw samples, decoded, are compared with the model's assignments"""
     dis = []
     stats = dict(plan['stats'])
-    stats.update({'writes': 0, 'assignments': 0, 'classes': set()})
+    stats.update({'writes': 0, 'assignments': 0, 'refused_both': 0, 'complex_trees': 0, 'classes': set()})
     for job in plan['jobs']:
         spec = job['tree']
+        kind = job['kind']
+        stats['complex_trees'] += kind != 'plain'
         for sub, q in job['subs']:
             b = segtree.Builder('w', tmpdir)
             try:
@@ -311,22 +534,27 @@ def check_writes(plan, ans, tmpdir):
                     break
                 stats['classes'].add(segtree.tree_class(spec))
                 counts = tuple(_count(n, d) for n, d in zip(seg.formatted_shape, sub))
-                data = numpy.arange(int(numpy.prod(counts)), dtype='int32').reshape(counts)
+                if kind == 'polar' and int(numpy.prod(counts)) > 30000:
+                    break
+                data = chunk_data(kind, counts)
                 stats['writes'] += 1
                 try:
                     seg.write(data, subscript=py_sub(sub))
                     impl = {}
                     for lid, (_, arr) in enumerate(b.leaves):
                         flat = numpy.array(arr).reshape(-1)
-                        for off in numpy.nonzero(flat != -1)[0]:
-                            impl[(lid, int(off))] = int(flat[off])
-                except Exception as e:
+                        for off in numpy.nonzero(flat != segtree.sentinel(flat.dtype))[0]:
+                            impl[(lid, int(off))] = decode_sample(kind, flat[off])
+                except REFUSALS as e:
                     impl = f'raised {type(e).__name__}: {e}'
+                except Exception as e:
+                    impl = f'raised unexpectedly {type(e).__name__}: {e}'
                 parsed = _model_assignments(ans[q])
                 if parsed[0] is None or isinstance(impl, str):
-                    if not (parsed[0] is None and isinstance(impl, str)):
+                    if not (parsed[0] is None and isinstance(impl, str) and not impl.startswith('raised unexpectedly')):
                         dis.append({'tree': spec, 'sub': sub, 'model': ans[q][:300], 'impl': str(impl)[:300], 'tie': 'segment model (write)'})
                         break
+                    stats['refused_both'] += 1
                     continue
                 model, mshape, dup = parsed
                 stats['assignments'] += len(model)
@@ -374,4 +602,5 @@ def obligations_reads(chk, broken):
 def obligations_writes(chk, broken):
     """audit Props/C07Seg.lean (add WSEG_MODULE to the chk.prove targets); the read theorems are obligations too"""
     _obligations(chk, broken, WSEG_MODULE, WSEG_NS, REQUIRED_WSEG, 'C07Seg')
-    _obligations(chk, broken, SEG_MODULE, SEG_NS, ['read_refines', 'full_shape', 'full_local'], 'C01Seg')
+    _obligations(chk, broken, SEG_MODULE, SEG_NS, ['read_refines', 'full_shape', 'full_local', 'accepts_of_total',
+                                                   'rawSubK_eq', 'rawSubK_reversed_not_normal', 'fmtSub_normal'], 'C01Seg')
